@@ -199,13 +199,19 @@ def units(tier, seed):
                         sp = {"kind": "composed", "L": 3, "gen": {"kind": "nbc", "factor": 2.0, "trunc": 1.0},
                               "deme_chain": [{"kind": "nbcfar", "factor": (0.3, 1.5)[ti], "ord": o, "only_active": fk == "nbc_active"}, {"kind": "demelimit", "limit": 1}],
                               "tree_chain": [{"kind": "levellimit", "limit": 3}]}
-                    descs.append(dict(engines=[r, c], gens=1 + k % 2, Mh=5, seed=s, sprout=sp, obj=("twofunnel", "sphere_in")[k % 2], box=("B_asym", "B_sym", "B_3d")[k % 3],
+                    descs.append(dict(engines=[r, c], gens=1 + k % 2, Mh=5, seed=s, sprout=sp, obj=("twofunnel", "sphere_in", "plateau")[k % 3], box=("B_asym", "B_sym", "B_3d")[k % 3],
                                       lsc=[None, {"kind": "metaepoch", "m": 2 + k % 2}], maximize=bool((k // 2) % 2), hib=bool(k % 3 == 0)))
     for k2, eng in enumerate([("SEA", "DE", "CMAf"), ("DE", "SEA", "SHADE"), ("SEA", "CMAw", "LOC"), ("LHS", "DEd", "SEAX")]):
         for sk in ("simple", "nbc"):
             for hib in (False, True):
                 descs.append(dict(engines=list(eng), gens=1, Mh=6, seed=s, sprout={"kind": sk, "L": 3, "far": 0.3} if sk == "simple" else {"kind": "nbc", "L": 3},
                                   lsc=[None, {"kind": "metaepoch", "m": 4}, {"kind": "metaepoch", "m": 2}], hib=hib))
+    # the shipped factory with a generator factor that differs from the filter factor
+    for k3, eng in enumerate([("SEA", "DE"), ("DE", "CMAf"), ("SHADE", "SEAX"), ("LHS", "DEd"), ("SEA", "DE", "CMAf"), ("GA", "SHADE")]):
+        for gen_f, fil_f in ((1.0, 3.0), (3.0, 0.5), (0.5, 2.0)):
+            for obj in ("twofunnel", "plateau"):
+                descs.append(dict(engines=list(eng), gens=1, Mh=5, seed=s + k3, sprout={"kind": "nbc", "L": 3, "gen": gen_f, "fil": fil_f, "trunc": 0.8}, obj=obj,
+                                  lsc=[None] + [{"kind": "metaepoch", "m": 3}] * (len(eng) - 1), pop=10))
     return [{"kind": "run", "descs": c} for c in chunks(descs, 8)]
 
 
